@@ -160,10 +160,11 @@ Definition parse_new_symbols (ts : list tok) : pres (list str) :=
 
 (* ---- BS_ (parser.go:343-398) ---- *)
 Definition p_uint_other (ts : list tok) (what_err : bool) : pres N :=
-  (* number token expected (syntax error otherwise); a conversion failure is returned unchanged *)
+  (* number token expected; a conversion failure is a syntax error at that token too (since the repair
+     of the BS_ section, which used to return the bare strconv error: [PErrOther] is no longer produced) *)
   let '(t, r) := next ts in
   if kind_is KNumber t then
-    match parse_uint (snd t) with Some n => POk n r | None => PErrOther end
+    match parse_uint (snd t) with Some n => POk n r | None => PErr (length ts) end
   else PErr (length ts).
 
 Definition parse_bit_timing (ts : list tok) : pres bit_timing :=
